@@ -8,12 +8,13 @@ import random
 def gen_mem_design(seed, did):
     r = random.Random(seed)
     s = [f"design {did}"]
-    depth = r.choice([2, 2, 3])
+    depth = r.choice([2, 2, 3, 4])
     width = r.choice([1, 1, 2])
     abits = 1 if depth == 2 else 2
     opts = []
     if r.random() < 0.25: opts.append("noconf")
     if r.random() < 0.2: opts.append("zero")
+    if r.random() < 0.3: opts.append("exact")          # UndefinedReadAddrBehavior::EXACT (scl::Sequencer uses it)
     in_bits = 0
     def pin(prefix, w, bit=False):
         nonlocal in_bits
